@@ -13,9 +13,10 @@ MTU = [1475, 1475, 100, 500, 1400, 3000]
 
 
 class Cfg:
-    def __init__(self, rng, nnodes=None, nat_p=0.3, drop_p=0.3, v6_p=0.15, multi_p=0.2, small_cap_p=0.4):
+    def __init__(self, rng, nnodes=None, nat_p=0.3, drop_p=0.3, v6_p=0.15, multi_p=0.2, small_cap_p=0.4, pcap=None):
         self.rng = rng
         self.lines = []
+        self.pcap_on = False
         self.nodes = []          # (name, [ips])
         self.ext = {}            # ip -> external (NAT) address or None
         n = nnodes or rng.choice([2, 2, 3, 4])
@@ -60,9 +61,9 @@ class Cfg:
             for _ in range(3):
                 a = rng.choice(self.all_ips()); b = rng.choice(self.all_ips())
                 self.lines.append("mtu %s>%s %d" % (a, b, rng.choice(MTU)))
-        if rng.random() < 0.15 and not v6:
+        if (rng.random() < 0.15 if pcap is None else pcap) and not v6:
             # the capture only understands IPv4 (log_tcp/log_udp call to_v4())
-            self.lines.append("pcap on")
+            self.lines.append("pcap on"); self.pcap_on = True
 
     def all_ips(self):
         return [ip for _, ips in self.nodes for ip in ips]
@@ -207,7 +208,8 @@ def udp_group(rng, cfg, P, base_port):
         c = "top" if rng.random() < 0.4 else P.at(rng.choice([0, 1000, 1000000, 20000000, 300000000, 900000000]))
         for _ in range(rng.choice([1, 1, 3, 10])):
             did += 1
-            ln = rng.choice([0, 1, 10, 100, 472, 1000, 1472, 1476, 3000, 9000, 60000, 65535, 65536])
+            ln = rng.choice([0, 1, 10, 100, 472, 1000, 1472, 1476, 3000, 9000, 60000, 65507, 65535, 65536])
+            if cfg.pcap_on and ln > 65507: ln = 65507      # the capture is specified for datagrams that fit one IPv4 packet
             P.do(c, "%s.send_to %s len=%d bufs=%d id=%d" % (u, ep(ip2, rng.choice([port2, port2, port2, base_port + 7])), ln, rng.choice([1, 1, 2, 3]), did))
     # churn: close / reopen / rebind
     for _ in range(rng.choice([0, 1, 2])):
@@ -259,10 +261,11 @@ def registry_ops(rng, cfg, P):
             P.do(c, "%s.destroy" % o)
 
 
-def scenario(rng, sid, family=None):
+def scenario(rng, sid, family=None, pcap=None):
     family = family or rng.choice(["tcp", "tcp", "tcp_heavy", "udp", "udp", "reg", "mixed", "mixed"])
     lossy = family in ("tcp_heavy",) or rng.random() < 0.4
-    cfg = Cfg(rng, drop_p=0.35 if lossy else 0.0, small_cap_p=0.5 if lossy else 0.1)
+    cfg = Cfg(rng, drop_p=0.35 if lossy else 0.0, small_cap_p=0.5 if lossy else 0.1, pcap=pcap,
+              v6_p=0.0 if pcap else 0.15)
     P = Prog(rng)
     if family in ("tcp", "tcp_heavy"):
         for k in range(rng.choice([1, 1, 2])):
@@ -279,7 +282,7 @@ def scenario(rng, sid, family=None):
     return "== %s\n%s\n%s\nend\n" % (sid, "\n".join(cfg.lines), "\n".join(P.lines))
 
 
-def generate(seed, tier, family=None, n=None):
+def generate(seed, tier, family=None, n=None, pcap=None):
     rng = random.Random(seed * 15485863 + 11)
     n = n or (400 if tier == "quick" else 12000)
-    return [scenario(rng, "%s%d" % ((family or "m")[0], i), family) for i in range(n)]
+    return [scenario(rng, "%s%d" % ((family or "m")[0], i), family, pcap) for i in range(n)]
